@@ -2,8 +2,16 @@ package main
 
 import (
 	"fmt"
+	"regexp"
 	"strings"
 )
+
+func min(a, b int) int {
+	if a < b {
+		return a
+	}
+	return b
+}
 
 // semUnit: one program against all texts, engine vs reference semantics R.
 // heads: command heads to try ("find all", "replace all"); replace commands get
@@ -29,12 +37,29 @@ func semUnit(c *Ctx, prop string, p *Prog, txts []string, withVars bool, alsoRep
 				map[string]any{"kind": "compile", "src": src, "want": "accepted"})
 			continue
 		}
+		var arb *goTermRx
+		if kind == "find" && !strings.Contains(strings.Join(txts[:min(len(txts), 200)], ""), "\r") {
+			if rx, ok := progRegex(p); ok {
+				arb = &goTermRx{src: rx, byPos: map[int]*regexp.Regexp{}}
+			}
+		}
 		for _, t := range txts {
 			c.Eval(1)
 			want, r := refScan(p, t, Variants{})
 			if r.blown {
 				c.Count("reference_too_expensive_skipped", 1)
 				continue
+			}
+			if arb != nil && !arb.bad && !strings.Contains(t, "\r") {
+				// the reference matcher itself is validated against Go's regexp on the regular subset
+				if gw, ok := arb.scan(t); ok {
+					if !spansEqual(gw, want, withVars) {
+						c.Count("ORACLE-DISAGREEMENT", 1)
+						c.Note(fmt.Sprintf("ORACLE-DISAGREEMENT %q (regex %s) on %q: R %s, Go regexp %s", src, arb.src, t, fmtSpans(want, withVars), fmtSpans(gw, withVars)))
+						continue
+					}
+					c.Count("model_validated_cases", 1)
+				}
 			}
 			if len(want) > 0 {
 				c.Nontrivial(1)
@@ -126,7 +151,7 @@ func init() {
 		ID:    "C01",
 		Level: "exploration",
 		Rule: "every program of <= n nodes of each driver grammar (D1 control, D1r reduced/deeper, D2 primitives, D3 anchors, D5 naming incl. recursion and predicates) x every text over the driver alphabet up to its length bound; " +
-			"engine spans compared with the reference backtracking matcher R; non-trivial = (program,text) pairs (each evaluated once, hence distinct) for which R reports at least one match",
+			"engine spans compared with the reference backtracking matcher R; on the regular subset (no back-references, recursion, predicates, negated or word anchors, nullable loop bodies) R itself is compared on every case with Go's regexp applied through the documented Regex-to-Vore table, a disagreement ending the run as ORACLE-DISAGREEMENT (counters.model_validated_cases); non-trivial = (program,text) pairs (each evaluated once, hence distinct) for which R reports at least one match",
 		Assume: []string{"reference matcher R (vmc/ref.go) encodes the documented semantics", "inputs are ASCII", "loop-id collisions of rand.Int63 ignored (2^-63)"},
 		Budget: map[string]int{"quick": 120, "thorough": 1500},
 		Run:    runC01,
